@@ -243,6 +243,33 @@ func Monitors(c *Case) []vh.Violation {
 			parent[o.Who] = o.A
 		}
 	}
+	// orphans: actors spawned by an actor inside (or after) its own final OnTerminated handler, and their descendants
+	// (finding C05-spawn-in-own-onterminated-leaks-child)
+	gone := map[int]bool{}
+	orphanRoot := map[int]bool{}
+	maxInst := map[int]int{}
+	for _, o := range fl {
+		if o.K == "H" && o.Inst > maxInst[o.A] {
+			maxInst[o.A] = o.Inst
+		}
+	}
+	for _, o := range fl {
+		switch {
+		case o.K == "H" && o.Trig == "TS" && o.Inst == maxInst[o.A]:
+			gone[o.A] = true
+		case o.K == "H" && o.Trig == "L":
+			gone[o.A] = false
+		case o.K == "SP":
+			orphanRoot[o.Who] = gone[o.A]
+		}
+	}
+	isOrphan := func(t int) bool {
+		ok := orphanRoot[t]
+		for x, has := parent[t]; has && !ok; x, has = parent[x] {
+			ok = orphanRoot[x]
+		}
+		return ok
+	}
 	isDesc := func(d, a int) bool {
 		for x, ok := parent[d]; ok; x, ok = parent[x] {
 			if x == a {
@@ -273,7 +300,7 @@ func Monitors(c *Case) []vh.Violation {
 						resp = "true" // the descendant's address was spawned more than once (see finding C05-respawn-before-parent-notified)
 					}
 					add("C05:terminated-before-descendant", fmt.Sprintf("actor %d handled its own OnTerminated at step %d while descendant %d (launched at step %d) had not handled its own",
-						o.A, o.Step, d, since), map[string]string{"respawned": resp})
+						o.A, o.Step, d, since), map[string]string{"respawned": resp, "orphan": fmt.Sprint(isOrphan(d))})
 				}
 			}
 			aliveSince[o.A] = -1
@@ -377,7 +404,13 @@ func Monitors(c *Case) []vh.Violation {
 				resp = "true"
 			}
 		}
-		add("C05:registered-after-shutdown", fmt.Sprintf("actors still registered after shutdown: %v", regs), map[string]string{"respawned": resp})
+		orphan := "true"
+		for _, t := range regs {
+			if !isOrphan(t) {
+				orphan = "false"
+			}
+		}
+		add("C05:registered-after-shutdown", fmt.Sprintf("actors still registered after shutdown: %v", regs), map[string]string{"respawned": resp, "orphan": orphan})
 	}
 	// ---------------- C06: exactly once
 	// For a target address that was spawned at most once (no address reuse), an observer may handle OnTerminated(target)
@@ -388,6 +421,14 @@ func Monitors(c *Case) []vh.Violation {
 	// handled the OnTerminated that ends it (again not the one a restart delivers to the old instance)
 	spAt, tAt2, tsAt2 := map[int]int{}, map[int]int{}, map[int]int{}
 	restarting := map[ai]bool{}
+	// a restart that was overtaken by a termination (no later instance exists) ends in a real termination: its
+	// OnTerminate / OnTerminated count as the termination's
+	lastInst := map[int]int{}
+	for _, o := range fl {
+		if o.K == "H" && o.Inst > lastInst[o.A] {
+			lastInst[o.A] = o.Inst
+		}
+	}
 	for _, o := range fl {
 		switch {
 		case o.K == "SP":
@@ -395,7 +436,9 @@ func Monitors(c *Case) []vh.Violation {
 				spAt[o.Who] = o.Step
 			}
 		case o.K == "H" && o.Trig == "RG":
-			restarting[ai{o.A, o.Inst}] = true
+			if o.Inst < lastInst[o.A] {
+				restarting[ai{o.A, o.Inst}] = true
+			}
 		case o.K == "H" && o.Trig == "T" && !restarting[ai{o.A, o.Inst}]:
 			if _, ok := tAt2[o.A]; !ok {
 				tAt2[o.A] = o.Step
